@@ -72,8 +72,8 @@ func findU(name string) *uEntry {
 	return nil
 }
 
-var coderBehs = []string{"one", "one-arr", "zero", "two", "partial", "pop-repush", "pop-unsup", "pop2-repush", "unsup", "unsup-after", "unsup-open", "err", "err-after", "reset", "options"}
-var coderBehsU = []string{"one", "one-tok", "zero", "two", "partial", "pop-repush", "pop-unsup", "pop2-repush", "unsup", "unsup-after", "unsup-open", "err", "err-after", "reset", "options"}
+var coderBehs = []string{"one", "one-arr", "zero", "two", "partial", "pop-repush", "pop-unsup", "pop2-repush", "unsup", "unsup-after", "unsup-open", "err", "err-after", "reset", "options", "nested-ok", "nested-ws"}
+var coderBehsU = []string{"one", "one-tok", "zero", "two", "partial", "pop-repush", "pop-unsup", "pop2-repush", "unsup", "unsup-after", "unsup-open", "err", "err-after", "reset", "options", "nested"}
 var bytesBehsM = []string{"one", "one-arr", "zero", "two", "partial", "invalid", "unsup", "err"}
 var textBehsM = []string{"one", "empty", "unsup", "err"}
 var bytesBehsU = []string{"one", "unsup", "err"}
@@ -207,6 +207,11 @@ func normalise(c Case) (Case, error) {
 				opts = append(opts, o)
 			}
 		}
+	}
+	if c.Pos == "imap-val" {
+		// a two-entry map: only Deterministic fixes the member order of the output
+		opts = slices.DeleteFunc(opts, func(o string) bool { return strings.HasPrefix(o, "Deterministic=") })
+		opts = append(opts, "Deterministic=true")
 	}
 	c.Opts = opts
 	return c, nil
@@ -367,7 +372,7 @@ func verify(c *Case, e *expect, r *result, tag string) error {
 		return fmt.Errorf("%s: %s (call log %v)", desc(), strings.Join(r.flags, "; "), r.log)
 	}
 	// call log: the expected sequence must be a prefix; on success it must be the whole log.
-	if len(r.log) < len(e.log) || !slices.Equal(r.log[:len(e.log)], e.log) {
+	if !logAgrees(c, e, r) {
 		return fmt.Errorf("%s: call log %v, documented order demands %v (err=%v out=%q)", desc(), r.log, e.log, r.err, r.out)
 	}
 	if e.err {
@@ -383,7 +388,7 @@ func verify(c *Case, e *expect, r *result, tag string) error {
 	if r.err != nil {
 		return fmt.Errorf("%s: unexpected error %v; documented result %q via %v, input %q, call log %v", desc(), r.err, e.out, e.winners, r.doc, r.log)
 	}
-	if len(r.log) != len(e.log) {
+	if len(r.log) != len(e.log) || !logAgrees(c, e, r) {
 		return fmt.Errorf("%s: extra user calls: log %v, documented order demands exactly %v", desc(), r.log, e.log)
 	}
 	if c.Dir == "m" {
@@ -418,8 +423,51 @@ func verify(c *Case, e *expect, r *result, tag string) error {
 	return nil
 }
 
-func sameResult(a, b *result) bool {
-	return string(a.out) == string(b.out) && (a.err == nil) == (b.err == nil) && slices.Equal(a.log, b.log) &&
+// logAgrees: the documented call sequence must be a prefix of the observed
+// one. The members of a map may be visited in any order (Deterministic fixes
+// the output, not the order of the calls), so at the two-entry map position
+// the sequences are compared per value: all of them on success, the failing
+// value's on failure.
+func logAgrees(c *Case, e *expect, r *result) bool {
+	if c.Pos != "imap-val" {
+		return len(r.log) >= len(e.log) && slices.Equal(r.log[:len(e.log)], e.log)
+	}
+	per := func(log []string, label string) []string {
+		var out []string
+		for _, l := range log {
+			if strings.HasSuffix(l, "#"+label) {
+				out = append(out, l)
+			}
+		}
+		return out
+	}
+	labels := []string{"1", "2"}
+	if e.err {
+		labels = []string{fmt.Sprint(c.When + 1)}
+	}
+	for _, lb := range labels {
+		got, want := per(r.log, lb), per(e.log, lb)
+		if len(got) < len(want) || !slices.Equal(got[:len(want)], want) {
+			return false
+		}
+		if !e.err && len(got) != len(want) {
+			return false
+		}
+	}
+	return true
+}
+
+func sortedLog(c *Case, log []string) []string {
+	if c.Pos != "imap-val" {
+		return log
+	}
+	out := slices.Clone(log)
+	slices.Sort(out)
+	return out
+}
+
+func sameResult(c *Case, a, b *result) bool {
+	return string(a.out) == string(b.out) && (a.err == nil) == (b.err == nil) && slices.Equal(sortedLog(c, a.log), sortedLog(c, b.log)) &&
 		(a.panicv == nil) == (b.panicv == nil) && slices.Equal(a.flags, b.flags) && reflect.DeepEqual(a.root, b.root)
 }
 
@@ -460,7 +508,7 @@ func Run(in Case) error {
 	if err := verify(&c, &e, &r2, "repeat run"); err != nil {
 		return err
 	}
-	if !sameResult(&r1, &r2) {
+	if !sameResult(&c, &r1, &r2) {
 		return fmt.Errorf("results differ between the first and the repeated run (cache state): out %q/%q err %v/%v log %v/%v", r1.out, r2.out, r1.err, r2.err, r1.log, r2.log)
 	}
 	// evidence of the policing checks
